@@ -53,6 +53,15 @@ def cases(tier, seed):
                 if n in (8, 15, 22) or tier == "thorough":
                     out.append({"n": n, "plan": list(plan), "crc": crc, "stall": ("ack", "silent")[(pi + ci + n) % 2],
                                 "D": D, "seed": seed})
+    # histories: an undisturbed block download earlier in the same process (on another client object and network, or
+    # on the same client) before the disturbed one
+    for n in ((8, 15, 22) if tier == "quick" else (8, 15, 22, 29, 36, 50)):
+        for pre in ("other", "same"):
+            for pre_n in (15, 3):
+                for plan in ((127,), (2,), (3, 1)):
+                    for crc in ("granted", "not-requested"):
+                        out.append({"n": n, "plan": list(plan), "crc": crc, "stall": "ack", "D": 1 if tier == "quick" else 2,
+                                    "seed": seed, "pre": pre, "pre_n": pre_n})
     if tier == "thorough":
         for n in (888, 889, 890, 1778, 10000):
             for plan in ((127,), (1,), (2, 3), (5, 1, 127), (126, 3)):
@@ -90,7 +99,23 @@ def one(case, ch):
             state["acked_once_for"] = (st["next"], len(st["segs"]))
             link.from_server(srv.bdl_ack())
 
-    link = RefLink(srv, req_filter=req_filter, idle=idle)
+    state["armed"] = True
+    if case.get("pre") == "other":
+        psrv = StrictSdoServer(6, blk_plan=(127,), crc=True)
+        psrv.expected_mux = struct.pack("<HB", 0x2001, 0)
+        plink = RefLink(psrv, node_id=6)
+        with plink.node.sdo.open(0x2001, 0, "wb", size=case["pre_n"], block_transfer=True) as fp:
+            fp.write(simenv.pattern(case["pre_n"], 77))
+    link = RefLink(srv, req_filter=lambda f: req_filter(f) if state.get("main") else True, idle=idle)
+    if case.get("pre") == "same":
+        with link.node.sdo.open(MUX[0], MUX[1], "wb", size=case["pre_n"], block_transfer=True) as fp:
+            fp.write(simenv.pattern(case["pre_n"], 77))
+        if srv.store.get(MUX) != simenv.pattern(case["pre_n"], 77) or srv.violations:
+            raise simenv.HarnessError(f"predecessor download failed: {srv.violations[:1]}")
+        del srv.commits[:], srv.completed[:]
+        link.client_frames[:] = []
+        simenv.W.timeouts = 0
+    state["main"] = True
     err = None
     try:
         with link.node.sdo.open(MUX[0], MUX[1], "wb", size=n, block_transfer=True,
